@@ -268,6 +268,45 @@ macro_rules! authbeh_fam {
 				let tag2 = format!("{tag}.AuthorityMut::new");
 				let tag2 = tag2.as_str();
 				auth_steps!($f, raw, $m, steps, tag2);
+				// ... and on a buffer that is NOT a URI: the constructor only requires buffer[start..end]
+				// to be an authority (here "CONNECT <authority> HTTP/1.1"); after the session the bytes
+				// around the authority must be untouched
+				let auth_text = init[start..end].to_string();
+				let before = "CONNECT ";
+				let after = " HTTP/1.1\r\n";
+				let mut raw = Raw { v: format!("{before}{auth_text}{after}").into_bytes(), start: before.len(), end: before.len() + auth_text.len() };
+				let tag3 = format!("{tag}.AuthorityMut::new(foreign surroundings)");
+				let tag3 = tag3.as_str();
+				let mut dead = false;
+				let mut last_view: Option<String> = None;
+				{
+					let mut am = raw.authority_mut().unwrap();
+					for (i, st) in steps.iter().enumerate() {
+						let op = st["op"].as_str().unwrap();
+						let arg = opt_text(&st["arg"]);
+						let r = guard(|| {
+							match op {
+								"set_userinfo" => am.set_userinfo(arg.as_deref().map(|x| iref::$m::UserInfo::new(x).expect("userinfo"))),
+								"set_host" => am.set_host(iref::$m::Host::new(arg.as_deref().unwrap()).expect("host")),
+								_ => am.set_port(arg.as_deref().map(|x| iref::$m::Port::new(x).expect("port"))),
+							}
+							am.as_authority().as_str().to_string()
+						});
+						match r {
+							Err(m) => { $f.panic(C11, &format!("{tag3}.step{i}.{op}"), &m); dead = true; break }
+							Ok(view) => {
+								$f.eq(C11, &format!("{tag3}.step{i}.{op}.view"), enc(&view), st["view"].clone());
+								if enc(&view) != st["view"] { dead = true; break }
+								last_view = Some(view);
+							}
+						}
+					}
+				}
+				if !dead {
+					if let Some(v) = last_view {
+						$f.eq(C11, &format!("{tag3}.after_drop"), String::from_utf8_lossy(raw.as_bytes()).as_ref(), format!("{before}{v}{after}").as_str());
+					}
+				}
 			}
 		}
 	}};
